@@ -79,6 +79,7 @@ def run(tier, seed, t0):
         "invalid_cell_not_first_in_the_file": (b("among_valid_position_middle", 0) + b("among_valid_position_last", 0), 0.5 * nam),
         "cells_validated": (b("cells_validated", 0), 70 * s),
         "dumbbell_inputs (necks thinner than the sampling distance)": (b("family_tried:dumbbell", 0), 6 * s),
+        "mixed_resolution_inputs (tower tessellated finer than one sample per triangle)": (b("family_tried:fine_tower", 0), 0.8 * s),
         "second_initialisation_cells_validated": (b("second_initialisation_cells_validated", 0), 30 * s),
         "clean_failures": (b("clean_failure:tri_on", 0), 3 * s),
         "accepted_unaltered_with_triangulation_disabled": (b("accepted:tri_off_triangulated", 0), 8 * s),
